@@ -1,12 +1,117 @@
-(* Property C02 (placeholder while the proofs are being built). *)
+(* Property C02 — turmoil::net TCP delivers an intact, ordered byte stream and
+   then EOF.  This file only states the theorems and closes them with the lemmas
+   of C02_proofs.v; see DESIGN.md section 5 (C02).
+
+   Model: TV.Stream.Model — one established connection, both endpoints, both
+   directions, the wire (Link.sent), the matured queues (Link.deliverable) and
+   the loopback path.  `run (init cap lo) es` executes an arbitrary event list:
+   application calls on either end (TryWrite / Write / Shutdown / Read / Peek and
+   the drops of either half), the network (any subset of the wire matures in any
+   order at any time, partitions drop what is in flight and what is sent) and
+   host turns (Drain).  Theorems quantify over all of them, over both
+   directions x, every capacity and both routing modes. *)
 From TV.Lib Require Import Base.
-From TV.Stream Require Import Model.
+From TV.Stream Require Import Gen Model Facts Inv C02_proofs.
+Close Scope N_scope.
+
+(* Safety.  Whatever happens — any delivery order, loss, resets, drops of either
+   half on either side — the bytes returned by the reads of one end form a
+   prefix of the bytes the other end's writes accepted (nothing lost in the
+   middle, duplicated, reordered or altered). *)
+Theorem c02_prefix : forall cap lo es x,
+  prefix (reads (other x) es (snd (run (init cap lo) es)))
+         (accepted x es (snd (run (init cap lo) es))).
+Proof. exact c02_prefix_lemma. Qed.
+
+(* A peek returns bytes that continue what was read so far ... *)
+Theorem c02_peek_prefix : forall cap lo es y n s' bs,
+  step (final (init cap lo) es) (Peek y n) = (s', ROkBytes bs) ->
+  prefix (reads y es (snd (run (init cap lo) es)) ++ bs)
+         (accepted (other y) es (snd (run (init cap lo) es))).
+Proof. exact c02_peek_lemma. Qed.
+
+(* ... and the read that follows returns the same leading bytes. *)
+Theorem c02_peek_then_read : forall s y n m s1 bs s2 rs,
+  step s (Peek y n) = (s1, ROkBytes bs) -> step s1 (Read y m) = (s2, ROkBytes rs) -> 0 < m ->
+  prefix bs rs \/ prefix rs bs.
+Proof. exact c02_peek_then_read_lemma. Qed.
+
+(* Flow control.  In every reachable state, with a live reader the next expected
+   segment sits in the reorder buffer only if it is the FIN and the channel is
+   full: a data segment never meets a full channel (so nothing accepted is
+   discarded at the receiver), because credits + unread data segments never
+   exceed tcp_capacity; and try_write reports WouldBlock exactly when the writer
+   has no credit. *)
+Theorem c02_no_overflow : forall cap lo es y k sg,
+  let s := final (init cap lo) es in
+  sk (eps s y) = Some k -> rd (eps s y) <> None ->
+  lookup (recv_seq k + 1)%N (buf k) = Some sg ->
+  sg = Fin /\ length (chan (eps s y)) = Model.cap s.
+Proof. exact c02_no_overflow_lemma. Qed.
+
+Theorem c02_credits : forall cap lo es x,
+  let s := final (init cap lo) es in
+  cred s x + ndata_pkt (pkts_from x (wire s)) + ndata_pkt (rdy s (other x)) +
+  ndata_buf (rx_buf (rx_of (eps s (other x)))) + ndata_seg (chan (eps s (other x))) <= Model.cap s.
+Proof. exact c02_credits_lemma. Qed.
+
+Theorem c02_wouldblock_iff : forall s x bs,
+  wr (eps s x) = Some false -> bs <> [] ->
+  (snd (step s (TryWrite x bs)) = RErr WouldBlock <-> cred s x = 0).
+Proof. exact c02_wouldblock_lemma. Qed.
+
+(* Delivery.  In every reachable state in which direction x was never cut off,
+   none of its segments is in flight any more, the writer has shut down or
+   dropped its write half (graceful close) and the receiving socket and reader
+   are alive: reading with any buffer size n > 0 never pends and never fails;
+   after at most `remaining` non-empty reads a read returns 0 bytes (EOF), and
+   everything read on that end, before and now, is exactly what the writer's
+   writes accepted.  (Deadlock-freedom + measure: this is the half that was
+   false before fix 3a3f8b8 — see c02_nonvacuous for the former witness.) *)
+Theorem c02_complete : forall cap lo es x n,
+  0 < cap -> 0 < n ->
+  graceful (final (init cap lo) es) x ->
+  exists s' chunks,
+    read_to_eof (S (remaining (final (init cap lo) es) x)) (final (init cap lo) es) (other x) n
+      = Some (s', chunks) /\
+    (forall c, In c chunks -> c <> []) /\
+    reads (other x) es (snd (run (init cap lo) es)) ++ concat chunks
+      = accepted x es (snd (run (init cap lo) es)).
+Proof. exact c02_complete_lemma. Qed.
+
+(* Non-vacuity: the history that used to hang.  tcp_capacity 2; A writes two
+   segments and shuts down; all three segments are delivered while B has read
+   nothing, so the FIN meets a full channel and is parked in the reorder buffer.
+   The state is graceful, the third try_write was refused with WouldBlock (not
+   discarded), and reading reaches EOF after both bytes.
+   On the semantics before the fix (after_pop = identity) the same history ends
+   with the third read Pending forever: corpus/C02/fin_at_full_channel.json. *)
+Definition h_full : list ev :=
+  [TryWrite A [97%N]; TryWrite A [98%N]; TryWrite A [99%N]; Shutdown A; Mature [2; 0; 1]; Drain B].
 
 Example c02_nonvacuous :
-  run_enc 2 false [TryWrite A [1;7]%N; TryWrite A [2]%N; TryWrite A [3]%N; Shutdown A;
-                   Mature [2;0;1]; Drain B; Read B 10; Read B 10; Read B 10]
-  = [(1, [2], []); (1, [1], []); (4, [1], []); (3, [], []); (5, [], []); (5, [], []);
-     (2, [1;7], []); (2, [2], []); (2, [], [])]%N.
-Proof. vm_compute. reflexivity. Qed.
+  graceful (final (init 2 false) h_full) A /\
+  snd (run (init 2 false) h_full) = [ROkN 1; ROkN 1; RErr WouldBlock; ROk; RNone; RNone] /\
+  (exists k, sk (eps (final (init 2 false) h_full) B) = Some k /\
+             lookup (recv_seq k + 1)%N (buf k) = Some Fin) /\
+  option_map snd (read_to_eof 3 (final (init 2 false) h_full) B 64) = Some [[97%N]; [98%N]].
+Proof.
+  split; [|split; [|split]].
+  - unfold graceful, quiet. vm_compute. repeat split; try discriminate; try tauto.
+  - vm_compute. reflexivity.
+  - eexists. split; vm_compute; reflexivity.
+  - vm_compute. reflexivity.
+Qed.
 
+Check c02_prefix : forall cap lo es x,
+  prefix (reads (other x) es (snd (run (init cap lo) es)))
+         (accepted x es (snd (run (init cap lo) es))).
+
+Print Assumptions c02_prefix.
+Print Assumptions c02_peek_prefix.
+Print Assumptions c02_peek_then_read.
+Print Assumptions c02_no_overflow.
+Print Assumptions c02_credits.
+Print Assumptions c02_wouldblock_iff.
+Print Assumptions c02_complete.
 Print Assumptions c02_nonvacuous.
